@@ -25,6 +25,8 @@ ASSUMPTIONS = [
     "complement table = IUPAC DNA/RNA complement as checked by C12",
 ]
 MAX_PER_SIG = 6
+N_PLANNED = 330  # planned histories per budget unit (x 2 classes)
+N_RANDOM = 220  # free random histories per budget unit (x 2 classes)
 
 DNA_COMP = str.maketrans("ACGTUNRYSWKMBDHV-?", "TGCAANYRSWMKVHDB-?")
 RNA_COMP = str.maketrans("ACGUTNRYSWKMBDHV-?", "UGCAANYRSWMKVHDB-?")
@@ -89,9 +91,227 @@ def _rand_bound(rng, n, wild):
     return rng.randint(n + 1, n + 4)
 
 
+def _ncols(rows):
+    return len(next(iter(rows.values()))) if rows else 0
+
+
+def _gap_targets(rows):
+    """alignment columns where some row's gap run starts or ends, +-1, 0, len"""
+    n = _ncols(rows)
+    pts = {0, 1, n - 1, n}
+    for s in rows.values():
+        for i in range(1, n):
+            if (s[i] == "-") != (s[i - 1] == "-"):
+                pts |= {i - 1, i, i + 1}
+    return sorted(p for p in pts if 0 <= p <= n)
+
+
+def _targeted_bound(rng, rows, wild):
+    """a slice bound at a gap boundary of some row (sometimes written negative), else the uniform/wild stream"""
+    n = _ncols(rows)
+    r = rng.random()
+    if r < 0.08:
+        return None
+    if r < 0.72:
+        p = rng.choice(_gap_targets(rows))
+        if wild and p < n and rng.random() < 0.2:
+            return p - n
+        return p
+    return _rand_bound(rng, n, wild)
+
+
+SHAPES = ["all-gap-col", "all-gap-col", "all-gap-row", "all-gap-row", "single-row", "single-col", "lead-trail",
+          "lead-trail", "empty", "all-gap", "codon", "codon", "codon", "plain"]
+
+
+def _shaped_aln(rng):
+    """alignments with a forced feature: all-gap columns / rows, one row, one column, leading+trailing gap runs,
+    zero columns, nothing but gaps, codon-sized (3k, 3k+1, 3k+2 columns)"""
+    shape = rng.choice(SHAPES)
+    mt, rows = _rand_aln(rng)
+    names = list(rows)
+    n = _ncols(rows)
+    if shape == "codon" or (n < 2 and shape in ("all-gap-col", "lead-trail")):
+        n = rng.choice([3, 6, 9, 12, 4, 7, 10, 5, 8, 11])
+        gappy = rng.choice([0.1, 0.25, 0.4])
+        rows = {nm: _rand_row(rng, n, mt, gappy) for nm in names}
+    if shape == "all-gap-col":
+        cols = set(rng.sample(range(n), min(n, rng.randint(1, 3))))
+        if rng.random() < 0.4:
+            cols |= {0} if rng.random() < 0.5 else {n - 1}
+        if rng.random() < 0.4:
+            c = rng.randrange(n)
+            cols |= {c, min(c + 1, n - 1)}
+        rows = {nm: "".join("-" if i in cols else ch for i, ch in enumerate(s)) for nm, s in rows.items()}
+    elif shape == "all-gap-row":
+        for nm in rng.sample(names, rng.randint(1, max(1, len(names) - 1))):
+            rows[nm] = "-" * n
+    elif shape == "single-row":
+        rows = {names[0]: rows[names[0]]}
+    elif shape == "single-col":
+        rows = {nm: (s[:1] or rng.choice(CANON[mt] + "-")) for nm, s in rows.items()}
+    elif shape == "lead-trail":
+        for nm in names:
+            a, b = rng.randint(0, n // 2), rng.randint(0, n // 2)
+            if rng.random() < 0.7:
+                rows[nm] = "-" * a + rows[nm][a : n - b] + "-" * b
+    elif shape == "empty":
+        rows = {nm: "" for nm in names}
+    elif shape == "all-gap":
+        rows = {nm: "-" * max(n, 1) for nm in names}
+    return mt, rows, shape
+
+
+PREDS = {
+    # predicates on the tuple of per-row motifs of one (motif-)column
+    "nogap": lambda ms: all("-" not in m for m in ms),
+    "first-nongap": lambda ms: "-" not in ms[0],
+    "variable": lambda ms: len(set(ms)) > 1,
+    "hash": lambda ms: (sum(ord(c) for m in ms for c in m) + len(ms)) % 3 != 0,
+    "all": lambda ms: True,
+    "none": lambda ms: False,
+}
+
+
+def _gen_op(rng, kind, mt, rows, wild=True):
+    """one op of the given kind, parameters drawn relative to the current string state; None if not applicable"""
+    names = list(rows)
+    nr, n = len(names), _ncols(rows)
+    if kind == "slice":
+        a, b = _targeted_bound(rng, rows, wild), _targeted_bound(rng, rows, wild)
+        if rng.random() < 0.7 and n >= 2:
+            # mostly a non-empty window between two gap boundaries (so that the history goes on)
+            t = _gap_targets(rows)
+            x, y = sorted(rng.sample(t, 2)) if len(t) >= 2 else (0, n)
+            a = x if rng.random() < 0.85 else (None if x == 0 else x - n)
+            b = y if rng.random() < 0.75 else (None if y == n else (y - n if y < n else rng.randint(n + 1, n + 3) if wild else n))
+        return ["slice", a, b]
+    if kind == "rc":
+        return ["rc"] if mt in ("dna", "rna") else None
+    if kind == "take_positions":
+        neg = rng.random() < 0.35
+        if not n:
+            return ["take_positions", [], neg]
+        style = rng.choice(["plain", "repeated", "unsorted", "negative", "oob", "mixed", "empty", "targets", "all"])
+        cols = [rng.randrange(n) for _ in range(rng.randint(1, min(n, 6) + 2))]
+        if style == "plain":
+            cols = sorted(set(cols))
+        elif style == "repeated":
+            cols = sorted(cols + [rng.choice(cols)] * 2)
+        elif style == "unsorted":
+            cols = sorted(set(cols), reverse=True)
+            if len(cols) > 2 and rng.random() < 0.5:
+                rng.shuffle(cols)
+        elif style == "negative":
+            cols = [c - n if rng.random() < 0.6 else c for c in cols] + [rng.choice([-1, -n])]
+        elif style == "oob":
+            cols.insert(rng.randint(0, len(cols)), rng.choice([n, n + 1, -n - 1, -n - 2]))
+        elif style == "mixed":
+            cols = [c - n if rng.random() < 0.4 else c for c in cols + cols[:2]]
+            rng.shuffle(cols)
+        elif style == "empty":
+            cols = []
+        elif style == "targets":
+            t = [p for p in _gap_targets(rows) if p < n]
+            cols = sorted(rng.sample(t, min(len(t), rng.randint(1, 5))))
+        elif style == "all":
+            cols = list(range(n))
+        return ["take_positions", cols, neg]
+    if kind == "omit_gap_pos":
+        if not nr:
+            return None
+        ml = 3 if rng.random() < 0.3 else 1
+        denom = nr * ml
+        r = rng.random()
+        if r < 0.35 and n >= ml:
+            # exactly the gap fraction of an existing (motif-)column: the <= boundary
+            j = rng.randrange(n // ml)
+            k = sum(s[j * ml : (j + 1) * ml].count("-") for s in rows.values())
+            frac = k / denom
+        elif r < 0.65:
+            frac = rng.randint(0, denom) / denom
+        elif r < 0.85:
+            frac = rng.choice([0, 0.125, 0.25, 0.375, 0.5, 0.625, 0.75, 0.875, 1.0])
+        else:
+            frac = None
+        return ["omit_gap_pos", frac, ml]
+    if kind == "no_degenerates":
+        return ["no_degenerates", rng.random() < 0.4, 3 if rng.random() < 0.5 else 1]
+    if kind == "filtered":
+        ml = rng.choice([1, 3, 3, 3, 2])
+        return ["filtered", rng.choice(["nogap", "first-nongap", "variable", "hash", "hash", "all", "none"]), ml, rng.random() < 0.6]
+    if kind == "motif":
+        return _gen_op(rng, rng.choice(["filtered", "filtered", "no_degenerates", "omit_gap_pos"]), mt, rows, wild)
+    if kind == "degapped_relative_to":
+        special = [nm for nm, s in rows.items() if s[:1] == "-" or s[-1:] == "-"]
+        return ["degapped_relative_to", rng.choice(special if special and rng.random() < 0.75 else names)]
+    if kind == "sample":
+        ml = 3 if (n >= 3 and rng.random() < 0.5) else 1
+        pop = n // ml
+        if not pop:
+            return None
+        if rng.random() < 0.5:
+            perm = list(range(pop))
+            rng.shuffle(perm)
+            return ["sample_perm", perm, rng.choice([0, pop, rng.randint(1, pop)]), ml]
+        idx = [rng.choice([0, pop - 1, rng.randrange(pop)]) for _ in range(rng.randint(1, 6))]
+        return ["sample_idx", idx, ml]
+    if kind == "to_type:T":
+        return ["to_type", True]
+    if kind == "to_type:F":
+        return ["to_type", False]
+    if kind == "*":
+        return _rand_op(rng, mt, rows, wild)
+    raise ValueError(kind)
+
+
+PLANS = [
+    ("slice-rc-slice", ["slice", "rc", "slice", "?*"]),
+    ("slice-rc-slice", ["?take_positions", "slice", "rc", "slice", "?rc", "?slice"]),
+    ("take_positions", ["?slice", "?rc", "take_positions", "?*"]),
+    ("omit_gap_pos", ["?slice", "omit_gap_pos", "?*"]),
+    ("omit_gap_pos", ["?rc", "omit_gap_pos", "?omit_gap_pos"]),
+    ("motif", ["?slice", "?rc", "motif", "?*"]),
+    ("motif", ["motif", "?motif"]),
+    ("motif", ["?slice", "filtered", "?*"]),
+    ("degapped", ["?slice", "?rc", "degapped_relative_to", "?*"]),
+    ("sample", ["?slice", "?rc", "sample", "?*"]),
+    ("to_type", ["slice", "?rc", "to_type:T", "*", "to_type:F", "*"]),
+    ("to_type", ["?slice", "rc", "to_type:F", "*", "to_type:T", "*"]),
+]
+
+
+def _build_history(rng, mt, rows, plan, only=None):
+    """ops following the plan, each drawn against the evolving string state; returns (ops, final rows or None)"""
+    ops, cur_mt, cur = [], mt, dict(rows)
+    for kind in plan:
+        if kind.startswith("?"):
+            if rng.random() < 0.5:
+                continue
+            kind = kind[1:]
+        if not cur:
+            break
+        op = _gen_op(rng, kind, cur_mt, cur, wild=rng.random() < 0.5)
+        if op is None or (only and op[0] not in only):
+            continue
+        ops.append(op)
+        try:
+            cur_mt, cur = _spec_apply(cur_mt, cur, op)
+        except (IndexError, ValueError, SpecNone):
+            return ops, None
+    return ops, cur
+
+
 def _rand_op(rng, mt, rows, wild=True):
     names = list(rows)
     n = len(next(iter(rows.values()))) if rows else 0
+    if rng.random() < 0.3:
+        # the parameterised generators: gap-boundary slices, take_positions styles, exact gap fractions, motif-wise
+        # filters, samples with motif_length, class conversion
+        op = _gen_op(rng, rng.choice(["slice", "slice", "take_positions", "take_positions", "omit_gap_pos", "motif", "filtered",
+                                      "degapped_relative_to", "sample", "to_type:T", "to_type:F", "rc"]), mt, rows, wild)
+        if op is not None:
+            return op
     r = rng.random()
     if r < 0.22:
         return ["slice", _rand_bound(rng, n, wild), _rand_bound(rng, n, wild)]
@@ -162,26 +382,40 @@ def _spec_apply(mt, rows, op):
         sel, neg = op[1], op[2]
         keep = [nm for nm in names if nm not in sel] if neg else list(sel)
         return mt, {nm: rows[nm] for nm in keep}
-    if k in ("no_degenerates", "omit_gap_pos", "degapped_relative_to"):
+    if k in ("no_degenerates", "omit_gap_pos", "filtered"):
+        # motif-wise filtering: a motif = ml consecutive columns; the predicate sees the tuple of per-row motifs;
+        # the remainder columns are dropped (or refused when drop_remainder=False)
         if k == "no_degenerates":
+            ml = op[2] if len(op) > 2 else 1
             ok = set(CANON[mt]) | ({"-"} if op[1] else set())
-            keep = [i for i in range(n) if all(rows[nm][i] in ok for nm in names)]
+            pred = lambda ms: all(c in ok for m in ms for c in m)
         elif k == "omit_gap_pos":
-            frac = op[1]
-            if frac is None:
-                keep = [i for i in range(n) if not all(rows[nm][i] in "-?" for nm in names)]
-            else:
-                keep = [i for i in range(n) if sum(rows[nm][i] in "-?" for nm in names) <= frac * len(names)]
+            ml = op[2] if len(op) > 2 else 1
+            # the code's own float comparison: (gap characters in the motif column) / (rows * ml) <= allowed, default
+            # allowed 1 - 1e-6; the generator only draws allowed values for which the float result is unambiguous
+            frac = 1 - 1e-6 if op[1] is None else op[1]
+            denom = len(names) * ml
+            pred = lambda ms: sum(c in "-?" for m in ms for c in m) / denom <= frac
         else:
-            keep = [i for i in range(n) if rows[op[1]][i] != "-"]
-        if not keep and k != "degapped_relative_to":
+            ml = op[2]
+            pred = PREDS[op[1]]
+            if n % ml and not op[3]:
+                raise ValueError("not divisible")
+        nm_ = n // ml
+        keep = [j for j in range(nm_) if pred(tuple(rows[x][j * ml : (j + 1) * ml] for x in names))]
+        if not keep:
             raise SpecNone()
+        return mt, {x: "".join(s[j * ml : (j + 1) * ml] for j in keep) for x, s in rows.items()}
+    if k == "degapped_relative_to":
+        keep = [i for i in range(n) if rows[op[1]][i] != "-"]
         return mt, {nm: "".join(s[i] for i in keep) for nm, s in rows.items()}
     if k == "sample_perm":
+        ml = op[3] if len(op) > 3 else 1
         locs = op[1][: op[2]] if op[2] else op[1]
-        return mt, {nm: "".join(s[i] for i in locs) for nm, s in rows.items()}
+        return mt, {nm: "".join(s[i * ml : (i + 1) * ml] for i in locs) for nm, s in rows.items()}
     if k == "sample_idx":
-        return mt, {nm: "".join(s[i] for i in op[1]) for nm, s in rows.items()}
+        ml = op[2] if len(op) > 2 else 1
+        return mt, {nm: "".join(s[i * ml : (i + 1) * ml] for i in op[1]) for nm, s in rows.items()}
     if k == "add":
         return mt, {nm: s + s for nm, s in rows.items()}
     if k == "to_type":
@@ -212,17 +446,39 @@ def _real_apply(aln, op, mt):
     if k == "take_seqs":
         return aln.take_seqs(op[1], negate=op[2])
     if k == "no_degenerates":
+        if len(op) > 2 and op[2] != 1:
+            return aln.no_degenerates(allow_gap=op[1], motif_length=op[2])
         return aln.no_degenerates(allow_gap=op[1])
     if k == "omit_gap_pos":
-        return aln.omit_gap_pos() if op[1] is None else aln.omit_gap_pos(allowed_gap_frac=op[1])
+        kw = {} if op[1] is None else dict(allowed_gap_frac=op[1])
+        if len(op) > 2 and op[2] != 1:
+            kw["motif_length"] = op[2]
+        return aln.omit_gap_pos(**kw)
+    if k == "filtered":
+        from cogent3.core.alignment import ArrayAlignment
+
+        pred = PREDS[op[1]]
+        if isinstance(aln, ArrayAlignment):
+            # the dense class hands the predicate an integer matrix (rows x motif_length)
+            alpha = aln.alphabet
+            f = lambda data: pred(tuple("".join(alpha.from_indices(r)) for r in data))
+        else:
+            f = lambda col: pred(tuple(str(x) for x in col))
+        return aln.filtered(f, motif_length=op[2], drop_remainder=op[3])
     if k == "degapped_relative_to":
         return aln.get_degapped_relative_to(op[1])
     if k == "sample_perm":
+        import numpy
+
         perm, n = op[1], op[2]
-        return aln.sample(n=n, with_replacement=False, permutation=lambda size: list(perm))
+        ml = op[3] if len(op) > 3 else 1
+        return aln.sample(n=n, with_replacement=False, motif_length=ml, permutation=lambda size: numpy.array(perm, dtype=int))
     if k == "sample_idx":
+        import numpy
+
         idx = op[1]
-        return aln.sample(n=len(idx), with_replacement=True, randint=lambda lo, hi, size: list(idx))
+        ml = op[2] if len(op) > 2 else 1
+        return aln.sample(n=len(idx), with_replacement=True, motif_length=ml, randint=lambda lo, hi, size: numpy.array(idx, dtype=int))
     if k == "add":
         if op[1] == "self":
             return aln + aln
@@ -261,16 +517,45 @@ def _op_detail(op, rows):
     if k == "take_positions":
         cols = op[1]
         if op[2]:
-            return "negate"
+            return "negate" + (":neg-or-oob-col" if any(c < 0 or c >= n for c in cols) else "")
+        if any(c >= n or c < -n for c in cols):
+            return "oob-col"
         if any(c < 0 for c in cols):
             return "neg-col"
-        if any(c >= n for c in cols):
-            return "oob-col"
+        if not cols:
+            return "empty"
+        if len(set(cols)) < len(cols):
+            return "repeated"
+        if cols != sorted(cols):
+            return "unsorted"
         return "plain"
     if k == "add":
         return op[1]
     if k == "sample_perm" or k == "sample_idx":
-        return "n=0" if (k == "sample_perm" and op[2] == 0) or (k == "sample_idx" and not op[1]) else "given"
+        ml = (op[3] if len(op) > 3 else 1) if k == "sample_perm" else (op[2] if len(op) > 2 else 1)
+        d = "n=0" if (k == "sample_perm" and op[2] == 0) or (k == "sample_idx" and not op[1]) else "given"
+        return d if ml == 1 else f"{d}:ml{ml}:{'rem' if n % ml else 'div'}"
+    if k == "filtered":
+        return f"{op[1]}:ml{op[2]}:{'rem' if n % op[2] else 'div'}:{'drop' if op[3] else 'keep'}"
+    if k == "no_degenerates":
+        ml = op[2] if len(op) > 2 else 1
+        return "" if ml == 1 else f"ml{ml}:{'rem' if n % ml else 'div'}"
+    if k == "omit_gap_pos":
+        ml = op[2] if len(op) > 2 else 1
+        if op[1] is None:
+            d = "default"
+        else:
+            # does some (motif-)column sit exactly on the threshold?
+            denom = len(names) * ml
+            exact = any(sum(c in "-?" for x in names for c in rows[x][j * ml : (j + 1) * ml]) / denom == op[1] for j in range(n // ml))
+            d = "frac-exact" if exact else "frac"
+        return d if ml == 1 else f"{d}:ml{ml}:{'rem' if n % ml else 'div'}"
+    if k == "degapped_relative_to":
+        ref = rows.get(op[1], "")
+        if ref and not ref.replace("-", ""):
+            return "ref-all-gap"
+        c = [x for x, f in (("lead", ref[:1] == "-"), ("trail", ref[-1:] == "-")) if f]
+        return "ref-" + "+".join(c) if c else "ref-other"
     return ""
 
 
@@ -331,6 +616,8 @@ def _run_history(out, rng, mt0, rows0, ops, arr, check_methods=True):
             nmt, nrows = _spec_apply(mt, rows, op)
         except IndexError:
             want_exc = "IndexError"
+        except ValueError:
+            want_exc = "ValueError"
         except SpecNone:
             want_exc = "None"
         got_exc = None
@@ -345,9 +632,15 @@ def _run_history(out, rng, mt0, rows0, ops, arr, check_methods=True):
         except Exception as e:
             got_exc = type(e).__name__
         taint = ":after-slice-beyond-len" if _tainted(done[:-1]) else ""
+        if op[0] in ("slice", "int") and any(d[0] == "rc" for d in done[:-1]):
+            taint += ":after-rc"
+        if any(d[0] == "to_type" for d in done[:-1]):
+            taint += ":after-to_type"
         cur_cls = type(aln).__name__
         sig = f"{cur_cls}:{op[0]}:{detail}{taint}"
         if want_exc or got_exc:
+            if want_exc == got_exc:
+                bump(out, "op_refused_alike", f"{op[0]}:{detail}:{want_exc}")
             if want_exc != got_exc:
                 if op[0] == "slice" and detail == "neg-oob" and got_exc == "IndexError":
                     bump(out, "accepted_refusal", sig)
@@ -417,8 +710,14 @@ def _regression_corpus(out, rng):
 
 def spec_check(ctx, budget):
     out = new_outcome(
-        "random dna/rna/protein alignments (1-5 rows, length 0-24, leading/trailing/all-gap rows, degenerates) x random "
-        "histories (depth 1-5) of slice/int/rc/take_positions/take_seqs/no_degenerates/omit_gap_pos/degapped_relative_to/"
+        "random dna/rna/protein alignments (1-5 rows, length 0-24, leading/trailing/all-gap rows, degenerates) and shaped "
+        "ones (all-gap columns/rows, one row, one column, zero columns, only gaps, 3k/3k+1/3k+2 columns) x random "
+        "histories (depth 1-5) and planned histories (slice->rc->slice at gap boundaries/negative/beyond len; "
+        "take_positions repeated/unsorted/negative/out-of-range x negate; omit_gap_pos at exact k/(rows*motif_length) and "
+        "dyadic thresholds compared the way the float computation does; filtered/no_degenerates/omit_gap_pos with "
+        "motif_length 3 (2) incl. remainder dropped or refused; degapped_relative_to leading/trailing/all-gap rows; "
+        "sample with given permutation/randint indices, motif_length 1 and 3; to_type both ways after slice/rc then more "
+        "ops) of slice/int/rc/take_positions/take_seqs/no_degenerates/omit_gap_pos/filtered/degapped_relative_to/"
         "sample(given indices)/+/to_type/to_rna/to_dna on BOTH Alignment and ArrayAlignment vs the same ops on plain "
         "strings; exhaustive single slices/int/rc-after-slice on small alignments; read-only methods vs a fresh object. "
         "non-trivial = distinct (class, alignment, history) that ran >= 1 op to a non-empty result"
@@ -442,8 +741,37 @@ def spec_check(ctx, budget):
         for i in range(-n - 1, n + 2):
             for arr in (False, True):
                 _run_history(out, rng, mt, rows, [["int", i]], arr, check_methods=False)
-    for it in range(400 * budget):
-        mt, rows = _rand_aln(rng)
+    # planned histories: every class of the property's quantifier appears on purpose, on both classes
+    for it in range(N_PLANNED * budget):
+        name, plan = PLANS[it % len(PLANS)]
+        mt, rows, shape = _shaped_aln(rng) if rng.random() < 0.6 else (*_rand_aln(rng), "random")
+        if name in ("slice-rc-slice", "to_type") and mt == "protein" and rng.random() < 0.8:
+            mt = rng.choice(["dna", "rna"])
+            rows = {nm: "".join(c if c == "-" else rng.choice(CANON[mt]) for c in v) for nm, v in rows.items()}
+        ops, cur = _build_history(rng, mt, rows, plan)
+        if not ops:
+            continue
+        bump(out, "plan", name)
+        bump(out, "shape", shape)
+        for arr in (False, True):
+            k = _run_history(out, rng, mt, rows, ops, arr, check_methods=it % 3 == 0)
+            if k and any(rows.values()):
+                out["nontrivial"].add((arr, mt, str(rows), str(ops)))
+        if len(out["samples"]) < 2 and name == "slice-rc-slice" and _ncols(rows) > 5 and cur:
+            out["samples"].append(dict(moltype=mt, rows=rows, ops=ops, expected=cur))
+    # exact gap fractions: every k / nrows on a few alignments, both classes
+    for it in range(6 * budget):
+        mt, rows, shape = _shaped_aln(rng)
+        nr = len(rows)
+        if not _ncols(rows):
+            continue
+        for ml in (1, 3):
+            ks = range(nr * ml + 1) if ml == 1 else rng.sample(range(nr * ml + 1), min(4, nr * ml + 1))
+            for k in ks:
+                for arr in (False, True):
+                    _run_history(out, rng, mt, rows, [["omit_gap_pos", k / (nr * ml), ml]], arr, check_methods=False)
+    for it in range(N_RANDOM * budget):
+        mt, rows = _rand_aln(rng) if rng.random() < 0.7 else _shaped_aln(rng)[:2]
         # build the history against the evolving string state so later ops stay meaningful
         ops, cur_mt, cur = [], mt, dict(rows)
         for _ in range(rng.randint(1, 5)):
@@ -453,7 +781,7 @@ def spec_check(ctx, budget):
             ops.append(op)
             try:
                 cur_mt, cur = _spec_apply(cur_mt, cur, op)
-            except (IndexError, SpecNone):
+            except (IndexError, ValueError, SpecNone):
                 break
         for arr in (False, True):
             k = _run_history(out, rng, mt, rows, ops, arr)
@@ -498,13 +826,16 @@ def correspondence(ctx):
     out = new_outcome(
         "Lean row model (IndelMap x displayed string per row) vs real Alignment rows after every op of random histories "
         "(slice incl. None/negative/beyond-len, int, rc, take_seqs, take_positions, to_rna/to_dna, + (self/copy), keep = "
-        "gapped_by_map with a run-length FeatureMap as filtered() builds); dense rows vs ArrayAlignment. compared: each "
+        "gapped_by_map with a run-length FeatureMap as filtered() builds) and of planned histories (slice->rc->slice with "
+        "bounds at gap boundaries, take_positions repeated/unsorted/negative/out-of-range, both polarities) on alignments "
+        "with all-gap rows/columns, one row, one column, zero columns; omit_gap_pos / motif-wise filtered / sample / "
+        "to_type are not in the model and are covered by the spec-level differential only; dense rows vs ArrayAlignment. compared: each "
         "row's (gap_pos, cum_gap_lengths, parent_length, data string), names, to_dict. non-trivial = distinct (alignment, "
         "history) with >= 1 op applied and a gap in some row"
     )
     rng = ctx.subrng("corr")
     cases = []
-    for it in range(ctx.budget(1000, 15000)):
+    for it in range(ctx.budget(700, 12000)):
         mt, rows = _rand_aln(rng)
         if mt == "protein" and rng.random() < 0.5:
             mt, rows = _rand_aln(rng)
@@ -533,6 +864,26 @@ def correspondence(ctx):
                 break
         if ops:
             cases.append((mt, rows, ops))
+    # planned histories over the ops the model covers: slice -> rc -> slice triples with bounds at gap boundaries /
+    # negative / beyond len, take_positions with repeated / unsorted / negative / out-of-range columns (both
+    # polarities), on alignments with all-gap rows / columns, one row, one column, no column
+    CORR_PLANS = [
+        ("slice-rc-slice", ["slice", "rc", "slice", "?rc", "?slice"]),
+        ("slice-rc-slice", ["?take_positions", "slice", "rc", "slice", "?take_positions"]),
+        ("take_positions", ["?slice", "?rc", "take_positions", "?slice"]),
+        ("take_positions", ["take_positions", "?rc", "?take_positions"]),
+    ]
+    for it in range(ctx.budget(500, 6000)):
+        name, plan = CORR_PLANS[it % len(CORR_PLANS)]
+        mt, rows, shape = _shaped_aln(rng) if rng.random() < 0.7 else (*_rand_aln(rng), "random")
+        if mt == "protein" and name == "slice-rc-slice":
+            mt = rng.choice(["dna", "rna"])
+            rows = {nm: "".join(c if c == "-" else rng.choice(CANON[mt]) for c in v) for nm, v in rows.items()}
+        ops, _ = _build_history(rng, mt, rows, plan, only=MODEL_OPS)
+        if ops:
+            cases.append((mt, rows, ops))
+            bump(out, "corr_plan", name)
+            bump(out, "corr_shape", shape)
     reqs = [("history", dict(moltype=mt, rows=[[k, v] for k, v in rows.items()], ops=ops)) for mt, rows, ops in cases]
     models = ctx.driver.batch(reqs)
     for (mt, rows, ops), model in zip(cases, models):
@@ -581,8 +932,18 @@ def correspondence(ctx):
             add_failure(out, "corr", f"ArrayAlignment rows differ after op #{i} ({ops[i - 1][0] if i else 'construct'})",
                         dict(moltype=mt, rows=rows, ops=ops[:i]), m_arr[i] if i < len(m_arr) else None,
                         arr_states[i] if i < len(arr_states) else None, confirmed=False)
+        cr, cm = dict(rows), mt
         for op in ops:
             bump(out, "corr_op", op[0])
+            if op[0] != "keep":
+                bump(out, "corr_op_detail", f"{op[0]}:{_op_detail(op, cr)}")
+            try:
+                if op[0] == "keep":
+                    cr = {nm: "".join(v[a:b] for a, b in op[1]) for nm, v in cr.items()}
+                else:
+                    cm, cr = _spec_apply(cm, cr, op)
+            except Exception:
+                break
         if any("-" in v for v in rows.values()) and len(real_states) > 1:
             out["nontrivial"].add((mt, str(rows), str(ops)))
         if len(out["samples"]) < 3 and len(ops) >= 3 and isinstance(real_states[-1], list):
